@@ -26,6 +26,7 @@ CONSTANTS FIDS = {"f", "g"}
  BUDGET = 0
  ENTRIES = 1
  FIXTERM = %(FIX)s
+ CTXFIX = TRUE
 INVARIANTS K1 K2 K5 NoPanicChain K7 K7b K9 K10 FramesMatchGo
 VIEW View
 CHECK_DEADLOCK FALSE
